@@ -196,6 +196,14 @@ impl P<'_> {
     fn make(&self, name: &str) -> Func {
         func(name.into(), vec![("q", Ty::Bool)], self.ty(), vec![], Some(self.literal(self.typ, &var("q"), false, false)))
     }
+    /// the SECOND written-out type: the same fields listed in the literal's order
+    fn ty2(&self) -> Ty {
+        Ty::Anon(self.lit.iter().map(|&k| (NAMES[k].to_string(), self.cls[k].ty())).collect())
+    }
+    /// `fn make2(q: bool) -> TYPE2 { literal in that order }`
+    fn make2(&self, name: &str) -> Func {
+        func(name.into(), vec![("q", Ty::Bool)], self.ty2(), vec![], Some(self.literal(self.lit, &var("q"), false, false)))
+    }
     fn fresh(&mut self) -> String {
         self.c += 1;
         format!("v{}", self.c)
@@ -391,6 +399,93 @@ pub fn perm_programs(cls: &[PF]) -> (Vec<TypeDesc>, Vec<(usize, Prog)>) {
                 s.push(eb(bin(BinOp::Eq, var("z"), call(&mk, p()))));
                 s.push(eb(bin(BinOp::Eq, var("y"), var("z"))));
                 (vec![take_f, ret_f], s, var("k"))
+            });
+
+            // TWO written-out types listing the same fields in different orders
+            // (seeded change C02-5). Whether they are one type the property does
+            // not say (the pinned tree rejects the program: allowed); if the
+            // program compiles, every field must still be addressed by name.
+            // With equal orders the program must compile.
+            let two = |site: &str| format!("{}{site}", if lit == typ { "one-written-type-twice " } else { "two-written-types " });
+            macro_rules! add2 {
+                ($site:expr, |$b:ident, $mk:ident, $mk2:ident, $pre:ident| $build:block) => {{
+                    let idx = out.len();
+                    let $pre = format!("q{idx}_");
+                    let $mk = format!("{}make", $pre);
+                    let $mk2 = format!("{}make2", $pre);
+                    #[allow(unused_mut)]
+                    let mut $b = P { cls, lit, typ, c: 0 };
+                    let (mut helpers, stmts, tail): (Vec<Func>, Vec<S>, E) = $build;
+                    helpers.insert(0, $b.make(&$mk));
+                    helpers.insert(1, $b.make2(&$mk2));
+                    let entry = format!("{}f", $pre);
+                    helpers.push(func(entry.clone(), vec![("p", Ty::Bool)], u32t(), stmts, Some(tail)));
+                    out.push((
+                        di,
+                        Prog {
+                            kind: format!("{} type-order-1={} type-order-2={}", two($site), order_name(lit), order_name(typ)),
+                            funcs: helpers,
+                            entry,
+                            ret: Ret::U32,
+                            solo: lit != typ,
+                            writes_after_copy: true,
+                        },
+                    ));
+                }};
+            }
+            // a value of type 1 is passed to a parameter of type 2
+            add2!("argument", |b, mk, mk2, pre| {
+                let h = format!("{pre}take");
+                let mut hs = b.emit(var("r"));
+                hs.push(eb(bin(BinOp::Eq, var("r"), call(&mk, var("q")))));
+                let helper = func(h.clone(), vec![("r", b.ty()), ("q", Ty::Bool)], u32t(), hs, Some(code(110)));
+                let mut s = vec![S::Let("x".into(), None, call(&mk2, p()))];
+                s.extend(b.emit(var("x")));
+                s.push(S::Let("k".into(), None, E::Call(h, vec![var("x"), p()])));
+                s.extend(b.emit(var("x")));
+                (vec![helper], s, var("k"))
+            });
+            // a value of type 1 is returned as type 2
+            add2!("return", |b, mk, mk2, pre| {
+                let h = format!("{pre}ret");
+                let helper = func(h.clone(), vec![("p", Ty::Bool)], b.ty(), vec![S::Let("x".into(), Some(b.ty2()), call(&mk2, p()))], Some(var("x")));
+                let mut s = vec![S::Let("y".into(), None, call(&h, p()))];
+                s.extend(b.emit(var("y")));
+                s.push(eb(bin(BinOp::Eq, var("y"), call(&mk, p()))));
+                (vec![helper], s, code(111))
+            });
+            // a variable annotated with type 1 initialises / is assigned to one annotated with type 2
+            add2!("let-and-assign", |b, mk, mk2, _pre| {
+                let mut s = vec![S::Let("x".into(), Some(b.ty2()), call(&mk2, p())), S::Let("y".into(), Some(b.ty()), var("x"))];
+                s.extend(b.emit(var("y")));
+                s.extend(b.emit(var("x")));
+                s.push(eb(bin(BinOp::Eq, var("y"), call(&mk, p()))));
+                s.push(st(E::Assign(vec!["y".into()], Box::new(call(&mk2, not_p())))));
+                s.extend(b.emit(var("y")));
+                for k in 0..n {
+                    let v = ife(p(), cls[k].sent(k, 0, false), cls[k].sent(k, 1, false));
+                    s.push(st(E::Assign(vec!["y".into(), NAMES[k].into()], Box::new(v))));
+                    s.extend(b.emit(var("y")));
+                    s.extend(b.emit(var("x")));
+                }
+                (vec![], s, code(112))
+            });
+            // == and != between the two types, both ways; if/else join, both branch orders
+            add2!("equality-and-join", |b, mk, mk2, _pre| {
+                let mut s = vec![];
+                for (op, other) in [(BinOp::Eq, p()), (BinOp::Ne, p()), (BinOp::Eq, not_p()), (BinOp::Ne, not_p())] {
+                    s.push(eb(bin(op, call(&mk2, p()), call(&mk, other.clone()))));
+                    s.push(eb(bin(op, call(&mk, other), call(&mk2, p()))));
+                }
+                s.push(S::Let("x".into(), None, ife(p(), call(&mk2, p()), call(&mk, p()))));
+                s.extend(b.emit(var("x")));
+                s.push(S::Let("y".into(), None, ife(p(), call(&mk, p()), call(&mk2, p()))));
+                s.extend(b.emit(var("y")));
+                s.push(S::Let("l".into(), None, E::ListLit(vec![call(&mk2, p()), call(&mk, not_p())])));
+                let e = b.fresh();
+                let body = b.emit(var(&e));
+                s.push(st(E::For(e, Box::new(var("l")), blk(body, None))));
+                (vec![], s, code(113))
             });
         }
     }
